@@ -18,6 +18,9 @@ func FuzzNormalise(f *testing.F) {
 		f.Add(s, " "+s, byte(1))
 	}
 	f.Fuzz(func(t *testing.T, reg, req string, bits byte) {
+		if len(reg)+len(req) > 400 {
+			return
+		}
 		if strings.ContainsAny(reg, "{}[]") {
 			return
 		}
